@@ -8,10 +8,12 @@
 #include <stdlib.h>
 #include <string.h>
 #include <stdio.h>
+#include <sys/types.h>
 
 static ssize_t (*real_write)(int, const void *, size_t) = 0;
 static long counter = 0;
 static int armed_fd = -1;
+static off_t armed_off = 0;
 
 static int is_target(int fd) {
     const char *want = getenv("FAULT_PATH");
@@ -27,7 +29,12 @@ static int is_target(int fd) {
 ssize_t write(int fd, const void *b, size_t n) {
     if (!real_write) real_write = dlsym(RTLD_NEXT, "write");
     if (fd <= 2 || !is_target(fd)) return real_write(fd, b, n);
-    if (armed_fd == fd) { armed_fd = -1; errno = EIO; return -1; }
+    if (armed_fd == fd) {
+        /* only the CONTINUATION of the truncated write fails (the device is broken at that position);
+           a program that never continues the short write is not rescued by a later failure */
+        armed_fd = -1;
+        if (lseek(fd, 0, SEEK_CUR) == armed_off) { errno = EIO; return -1; }
+    }
     counter++;
     const char *ns = getenv("FAULT_WRITE_N");
     if (ns && counter == atol(ns)) {
@@ -37,6 +44,7 @@ ssize_t write(int fd, const void *b, size_t n) {
         if (s == 0) { errno = EIO; return -1; }
         ssize_t r = real_write(fd, b, s);
         armed_fd = fd;
+        armed_off = lseek(fd, 0, SEEK_CUR);
         return r;
     }
     return real_write(fd, b, n);
